@@ -5,6 +5,7 @@ DataSymmetriesForBins_PET_CartesianGrid / ProjMatrixByBinUsingRayTracing / ProjM
 Oracle: every returned row against the row of a fresh matrix without symmetries and without cache."""
 import os, re
 import vlib
+import gen_gate
 
 PROP = "C03"
 
@@ -17,6 +18,8 @@ def main(tier, replay):
                 tier = l.split("tier=")[1].split()[0]
     chk = vlib.Check(PROP, tier, level="proof")
     audit = vlib.lean_gate(chk, PROP)
+    # tie (T): the 48 symmetry-operation member functions, the two decision trees and cache_key are regenerated from the source
+    tie_t = gen_gate.gate(chk, kernels=gen_gate.SO_KERNELS)
     # exact comparison of every answer line (integers; floats of rows are carried as opaque hex tokens, the model
     # only moves them): no tolerance in the correspondence part
     stats = vlib.run_differential(chk, PROP, "c03_symmetries", tier, ctx_prefixes=("cfg", "psetup"))
@@ -37,19 +40,26 @@ def main(tier, replay):
         extra["input_distribution"] = hist
         if stats.get("oracle_checks", 0) == 0:
             chk.violation("oracle-missing", "the harness did not finish its oracle (no ORACLE-DONE line)", "no ORACLE-DONE", found_input=False)
+    chk.coverage["tie_T_translator"] = tie_t
     vlib.standard_coverage(chk, stats,
-        "real DataSymmetriesForBins_PET_CartesianGrid (all 32 switch combinations x every bin of 4 generated geometries + sampled bins of "
+        "real DataSymmetriesForBins_PET_CartesianGrid (all 32 switch combinations x every bin of 4 fixed + 3 (thorough: 30) generated geometries + sampled bins of "
         "special ones: view offset, shifted origin, odd views, mashing, TOF, anisotropic voxels, z origin error branch): find_basic_bin, "
         "find_symmetry_operation_from_basic_bin, transform_bin_coordinates / view_segment_indices / image_coordinates / "
         "proj_matrix_elems_for_one_bin, effective switches, planes per ring / axial position, z offsets; "
         "ProjMatrixByBinUsingRayTracing histories (get with repeats, clear_cache, enable_cache, store_only_basic_bins_in_cache, set_* + set_up, "
-        "set_up on other geometries) with rows compared token by token (hex floats) with the Lean cache state machine fed with the "
+        "set_up on other geometries including images that differ from the previous one in their index range only) with rows compared "
+        "token by token (hex floats) with the Lean cache state machine fed with the "
         "ray-traced rows of the basic bins; ProjMatrixElemsForOneBin::merge on integer-valued rows. Comparison is exact (no tolerance). "
         "Oracle (C++): every row returned in the histories and in sweeps over every bin x 32 switch combinations x 3 cache modes x rays "
-        "(1,2[,3]) x FOV shape equals the row of a fresh matrix with all symmetries off and no cache within the library's own tolerance "
+        "(1,2[,3]) x FOV shape, and every bin after set_up; requests; set_up for an image with another index range (3 cache modes), "
+        "equals the row of a fresh matrix with all symmetries off and no cache within the library's own tolerance "
         "(2e-3 of the row maximum) unless a traced ray is parallel to a grid axis on a voxel boundary (geometric screen); exact: row carries "
-        "the requested bin, values >= 0, voxels inside the image, no voxel twice, op(basic bin) = bin.", extra)
+        "the requested bin, values >= 0, voxels inside the image (in z: a voxel outside the planes of the image but inside the axial "
+        "extent of the scanner is the known finding voxel-outside-image-in-z:...; beyond that extent it fails), no voxel twice, "
+        "op(basic bin) = bin.", extra)
     chk.assumptions += ["the ray tracer (calculate_proj_matrix_elems_for_one_bin, TOF kernel) is an uninterpreted function in Lean",
+                        "a geometry of the model is what set_up compares (projection data info, voxel size, origin, index range, library ==); "
+                        "that symmetries object and ray tracer depend on nothing else is part of the model (checked by the oracle only)",
                         "cylindrical scanner geometry only (BlocksOnCylindrical / Generic branches not modelled)",
                         "32-bit overflow not modelled; cache_key itself is private: observed only through rows returned from the cache",
                         "axial offsets are multiples of 1/4 plane (model carries them as integers)"]
